@@ -233,6 +233,9 @@ def mon_c06(run):
                 bad.append("task %s moved %s -> %s by %s, not an edge of the lifecycle" % (t, before, after, op))
             if before in FINAL and after != before:
                 bad.append("task %s left the final state %s" % (t, before))
+            if op == "unschedule" and after not in ("VIRTUAL", "RELEASED"):
+                bad.append("task %s is %s after its plan was skipped or retracted (unschedule), not back in its earlier "
+                           "state VIRTUAL/RELEASED" % (t, after))
             if op == "cancel" and before not in ("VIRTUAL", "RELEASED", "SCHEDULED"):
                 bad.append("task %s cancelled from %s" % (t, before))
             if op == "start" and t in cancelled_at:
@@ -428,18 +431,43 @@ def mon_c12(run, world):
     return bad
 
 
-def mon_c10(run, world):
+F37_PLANNERS = ("TetriSched_Gurobi", "TetriSched_CPLEX", "ILP", "Z3")
+
+
+def unfit_on_empty(requests, units):
+    """requests: [[name, id|'any', q]...]; units: [[name, id, q]...] of one worker.  A reason when the requests can never
+    be allocated on the empty worker (a definite impossibility only), else None."""
+    by_unit = {(n, i): q for (n, i, q) in units}
+    by_name = {}
+    for (n, i, q) in units:
+        by_name[n] = by_name.get(n, 0) + q
+    need = {}
+    for (n, i, q) in requests:
+        need[n] = need.get(n, 0) + q
+        if i != "any" and q > 0 and by_unit.get((n, i), 0) < q:
+            return "it requests %s of the unit %s:%s, the worker has %s of that unit" % (q, n, i, by_unit.get((n, i), 0))
+    for n, q in need.items():
+        if by_name.get(n, 0) < q:
+            return "it requests %s x %s, the worker has %s" % (q, n, by_name.get(n, 0))
+    return None
+
+
+def mon_c10(run, world, f37_out=None):
     """the decisions every policy returned during whole simulations (C10's contract, implementation side)"""
     bad = []
     if world.get("fuzz"):
         return bad          # the harness's own adversarial policy is not one of the bundled policies
     pools = set()
+    workers = {}
     info = graph_info(run)
     last_offer = None
     log = run["log"]
     for e in log:
         if e[0] == "cluster":
             pools = {p[1] for p in e[1]}
+            names = e[2] if len(e) > 2 else {}
+            units = {w[0]: w[1] for p in e[1] for w in p[2]}
+            workers = {wid: (wn, units.get(wn, [])) for wid, wn in names.items()}
         elif e[0] == "offer":
             last_offer = e
         elif e[0] == "decisions":
@@ -465,6 +493,17 @@ def mon_c10(run, world):
                     ti = info.get(t)
                     if ti and d[6] is None and d[7] is not None and world["flags"]["scheduler"] != "Clockwork":   # (batch strategies are derived objects)
                         bad.append("placement of %s reports a strategy that is not one of the task's" % t)
+                    # a placement that names a worker: the chosen strategy must fit that worker when it is EMPTY
+                    # (a unit the worker does not have can never be allocated there: the simulator retries for ever)
+                    if ti and d[4] is not None and d[6] is not None and d[4] in workers:
+                        why = unfit_on_empty(ti["strategies"][d[6]][1], workers[d[4]][1])
+                        if why:
+                            msg = ("placement of %s by %s names worker %s on which its chosen strategy can never be allocated: %s"
+                                   % (t, world["flags"]["scheduler"], workers[d[4]][0], why))
+                            if f37_out is not None and world["flags"]["scheduler"] in F37_PLANNERS and "unit" in why:
+                                f37_out.append(msg)       # known finding F37 (signature: planner + request for a specific unit)
+                            else:
+                                bad.append(msg)
             for t, c in seen.items():
                 if c > 1:
                     bad.append("%d decisions for task %s in one invocation at %s" % (c, t, now))
